@@ -183,3 +183,20 @@ Example C14_example :
   end.
 Proof. vm_compute. split; reflexivity. Qed.
 Print Assumptions C14_example.
+
+(** the recorded finding C14-sub-tail-filtered, on the model: text(both(one a, sub(empty))) on "a  c" with whitespace
+    dropped captures bytes 0..3 ("a  "), although the only token consumed is "a" (bytes 0..1): the sub-parse
+    mark skips the blanks eagerly and the capture ends at the cursor. Without the sub the capture is 0..1. *)
+Theorem C14_sub_tail_refuted :
+  let t := [Ch 1 1 1; Ch 1 1 6; Ch 1 1 6; Ch 1 1 3] in
+  match c_with_filter (c_new Plain t) (Some (FDrop [KWs])) with
+  | Ok lx =>
+    match run 10 (GText (GBoth (GOne KA) (GSub GEmpty))) lx (ctx_new true) (mkstore [] []),
+          run 10 (GText (GBoth (GOne KA) GEmpty)) lx (ctx_new true) (mkstore [] []) with
+    | (ROk (VText b e) _, _), (ROk (VText b' e') _, _) => b = 0 /\ e = 3 /\ b' = 0 /\ e' = 1
+    | _, _ => False
+    end
+  | _ => False
+  end.
+Proof. vm_compute. repeat split. Qed.
+Print Assumptions C14_sub_tail_refuted.
